@@ -610,7 +610,7 @@ pub fn plan_for(id: &str, tier: &str) -> Option<Plan> {
             p.mon.chain = true;
             p.binary_every = if thorough { 6 } else { 16 };
             p.long = (n(2, 20), n(600, 2000));
-            p.required = vec!["AddVersion|", "base=id", "arg=foreign|conflict", "arg=base", "|accepted"];
+            p.required = vec!["AddVersion|", "base=id", "arg=foreign|conflict", "arg=base", "|accepted", "walk-under-storage-failure|sqlite/http|", "walk-under-storage-failure|sqlite/lib|", "quota-walk|limit=96-blocks|failures-seen=1", "quota-walk|limit=300-blocks|failures-seen=1"];
             p.rule = "random adversarial multi-client histories (nil/latest/stale/base/fresh/foreign ids, nil and non-nil first parent, reopen) on 5 subjects; after every operation every client's chain is walked from its base through the same entry point and, for SQLite, all rows are scanned for forks/orphans. A situation = (operation, client state class, argument class, outcome); distinct_nontrivial counts distinct situations observed. Concurrent part: the E2 scenarios in which only AddVersion requests overlap (pairs, triples, two-request programs; never-seen, empty and existing clients; all backends; both entries) under the controlled scheduler with the differential oracle (final state includes every known id that exists as a version and the child index, so a fork or an orphan cannot match any one-at-a-time order).";
         }
         "C02" => {
